@@ -151,7 +151,7 @@ func (w *world) doBatch(op opT) string {
 		case len(live)+len(liveC2) > c.maxRes:
 			w.violate("C11/reservation-cap-exceeded/after-refused-refresh", "after a concurrent batch %d reservations are live together (MaxReservations=%d), %d of them had a refresh refused earlier: granted in the batch %v; %s", len(live)+len(liveC2), c.maxRes, len(liveC2), G, w.rsvDump())
 		}
-		for _, ip := range ipPool {
+		for _, ip := range c.pool {
 			n, n2, newOne := 0, 0, false
 			for q, ips := range live {
 				if len(ips) == 1 && ips[0] == ip {
@@ -174,6 +174,29 @@ func (w *world) doBatch(op opT) string {
 				w.violate("C11/reservation-cap-exceeded/per-ip", "after a concurrent batch %d reservations made from %s are live together (MaxReservationsPerIP=%d): granted in the batch %v; %s", n, ip, c.perIP, G, w.rsvDump())
 			case n+n2 > c.perIP:
 				w.violate("C11/reservation-cap-exceeded/after-refused-refresh", "after a concurrent batch %d reservations made from %s are live together (MaxReservationsPerIP=%d), %d of them had a refresh refused earlier: granted in the batch %v; %s", n+n2, ip, c.perIP, n2, G, w.rsvDump())
+			}
+		}
+	}
+	if len(G) > 0 && c.v6 {
+		// per-AS: the same set, grouped by autonomous system
+		byAS := map[uint32]int{}
+		newAS := map[uint32]bool{}
+		for _, q := range m.keys() {
+			r := m.rsv[q]
+			if _, inG := G[q]; inG || gone[q] || !(r.sure && t1 < r.lo) || r.counted != cntYes || len(r.ips) != 1 {
+				continue
+			}
+			byAS[asnOf(r.ips[0])]++
+		}
+		for _, ips := range G {
+			if len(ips) == 1 {
+				byAS[asnOf(ips[0])]++
+				newAS[asnOf(ips[0])] = true
+			}
+		}
+		for as, n := range byAS {
+			if as != 0 && newAS[as] && n > c.perASN {
+				w.violate("C11/reservation-cap-exceeded/per-asn", "after a concurrent batch %d reservations made from AS%d are live together (MaxReservationsPerASN=%d): granted in the batch %v; %s", n, as, c.perASN, G, w.rsvDump())
 			}
 		}
 	}
